@@ -304,6 +304,11 @@ class Emitter:
             self.w(f"_w = {self.e(s[2])}")
             self.w("return _w")
             self.ind -= 1
+        elif op == "nested_fn":
+            # a full (traceable, probe-able) actor function defined inside this one
+            saved = (self.fname, self.site_n, self.tmp_n)
+            self.function(s[1], qual=s[1]["name"])
+            self.fname, self.site_n, self.tmp_n = saved
         elif op == "class":
             self.w(f"class {s[1]}:")
             self.ind += 1
@@ -450,7 +455,19 @@ import functools
 from sim.env import EnvFault, EnvBaseFault, ProgErr, OtherErr
 
 ENV = None
-T = None
+
+
+class _NullTracer:
+    """Used while the module body itself runs (closure factories are called
+    at import time, before the simulator installs the real tracer)."""
+
+    def __getattr__(self, name):
+        if name in ("b", "value", "yld", "recv"):
+            return lambda *a: a[-1]
+        return lambda *a: None
+
+
+T = _NullTracer()
 G0 = 7
 G1 = 8
 
@@ -538,18 +555,22 @@ def emit_module(program, traced):
     for clo in program.get("closures", []):
         # def _mk_f(c0, c1):  def f(...): ... ; return f ;  f = _mk_f(41, 42)
         free = clo["free"]
-        em.w(f"def {clo['factory']}({', '.join(free)}):")
-        em.ind += 1
-        em.function(clo["fn"], qual=clo["fn"]["name"])
-        em.w(f"return {clo['fn']['name']}")
-        em.ind -= 1
-        em.w("")
+        em.function(factory_ir(clo))
         args = ", ".join(str(v) for v in free.values())
         em.w(f"{clo['fn']['name']} = {clo['factory']}({args})")
         em.w("")
     for tail in program.get("module_tail", []):
         em.w(tail)
     return "\n".join(em.lines) + "\n"
+
+
+def factory_ir(clo):
+    return {
+        "name": clo["factory"],
+        "params": list(clo["free"]),
+        "body": [["nested_fn", clo["fn"]], ["ret", ["var", clo["fn"]["name"]]]],
+        "factory_of": clo["fn"]["name"],
+    }
 
 
 def all_functions(program):
@@ -569,6 +590,7 @@ def all_functions(program):
         out.append((fn["name"], fn))
     for clo in program.get("closures", []):
         out.append((clo["fn"]["name"], clo["fn"]))
+        out.append((clo["factory"], factory_ir(clo)))
     return out
 
 
